@@ -131,6 +131,19 @@ pub fn wedge_cells(a: &Args, rep: &mut Report, label: &str, quick: u64, thorough
     });
 }
 
+/// Zoom inputs (vcore::case::zoom_case, monitor p_zoom::one_zoom): compact groups with a spacing of 1e-8 .. 1e-4 box widths,
+/// half of them straddling the periodic boundary; judged at the scale of the group.
+pub fn zoom_cells(a: &Args, rep: &mut Report, label: &str, hostile: bool, quick: u64, thorough: u64, f: impl Fn(&Case, &mut Report) + Sync) {
+    if a.leg.as_deref().map_or(false, |l| l != "relcheck" && l != "norayon") {
+        return;
+    }
+    let n = ncases(a, quick, thorough);
+    run_parallel(rep, n, budget(a, 100., 900.), |k, rep| {
+        let c = vcore::case::zoom_case(label, &a.tier, a.seed, k, hostile);
+        f(&c, rep);
+    });
+}
+
 /// Large inputs (thousands to hundreds of thousands of generators: deep search trees, large index values, long face and
 /// connectivity arrays): uniform or density-gradient sets in the milder boxes, all dimensionalities, periodic or not.
 pub fn large_cases(a: &Args, rep: &mut Report, label: &str, quick: &[usize], thorough: &[usize], f: impl Fn(&Case, &mut Report) + Sync) {
@@ -183,6 +196,13 @@ pub fn run(a: &Args, rep: &mut Report) {
         "Xsurvey" => {
             crate::p_total::survey(a);
             std::process::exit(0);
+        }
+        "Xzoom" => {
+            // survey of the zoom family on the current tree: all zoom monitors, nothing else
+            zoom_cells(a, rep, "Xzoom", std::env::var("VERIF_ZOOM_HOSTILE").is_ok(), 2000, 20000, |c, rep| {
+                crate::p_zoom::one_zoom("Xzoom", c, rep);
+                crate::p_nn::one_c17("Xzoom", c, rep);
+            });
         }
         "C05corpus" => {
             crate::p_total::corpus_dump(a);
@@ -265,6 +285,10 @@ pub fn replay(a: &Args, path: &Path, rep: &mut Report) -> i32 {
 
 /// Run the monitors of property `id` on one explicit case (used by --replay and by the corpus).
 pub fn run_one(id: &str, c: &Case, rep: &mut Report) {
+    if c.family == "zoom" && matches!(id, "C01" | "C06" | "C16" | "Xzoom") {
+        crate::p_zoom::one_zoom(id, c, rep);
+        return;
+    }
     match id {
         "C01" => one_c01(id, c, rep),
         "C02" => one_c02(id, c, rep),
@@ -389,6 +413,7 @@ fn c01(a: &Args, rep: &mut Report) {
     });
     giant_cells(a, rep, "C01", &[3000], &[3000, 12000, 12000], |c, rep| one_c01("C01", c, rep));
     wedge_cells(a, rep, "C01", 1500, 20000, |c, rep| one_c01("C01", c, rep));
+    zoom_cells(a, rep, "C01", false, 400, 6000, |c, rep| crate::p_zoom::one_zoom("C01", c, rep));
 }
 
 fn one_c02(prop: &str, c: &Case, rep: &mut Report) {
